@@ -1038,6 +1038,16 @@ func init() {
 			}
 			return m.ctx.Bool(m.isLocalRef(st, ch) || m.ownedChans[ch.id])
 		},
+		"chanCap": func(m *Machine, st *State, fr *Frame, instr ssa.Instruction, fn *ssa.Function, args []Value) Value {
+			return m.ctx.App("chanCapOf", IntSort, args[0].(*Term))
+		},
+		"iterFresh": func(m *Machine, st *State, fr *Frame, instr ssa.Instruction, fn *ssa.Function, args []Value) Value {
+			if m.iterCut == nil {
+				m.problem("iterFresh used outside a loop iter clause")
+				return m.ctx.F
+			}
+			return m.ctx.Bool(m.isFreshAfter(st, args[0].(*Ptr).Ref, m.iterCut.freshAt))
+		},
 		"closed": func(m *Machine, st *State, fr *Frame, instr ssa.Instruction, fn *ssa.Function, args []Value) Value {
 			return m.chanClosed(st, args[0].(*Term))
 		},
